@@ -18,7 +18,7 @@ import sys
 from simworld.core import H
 from . import common
 
-NPLANS = {"quick": 60, "thorough": 1500}
+NPLANS = {"quick": 300, "thorough": 1500}
 RULE = (
     "exhaustive plans: every operation sequence of length <= L (L=4 quick, 5 thorough) from the empty database over a 19-letter "
     "alphabet (add of valid neutral / charged / mixture / explicit-H / isotopic compounds, invalid SMILES, duplicate formula with new "
